@@ -77,8 +77,12 @@ Holds(p, t) == t.a = <<>> /\ t.n \in p
 (*   "rot"    an alias mapping each atom to the next one cyclically, other   *)
 (*            types to themselves                                            *)
 (*   "const1" an alias mapping everything to the first atom                  *)
-Funs == {"W", "ptr", "rot", "const1"}
+(*   "W2"     a class template with a second, defaulted parameter: W2<T>     *)
+(*   "tuple1" a variadic class template (std::tuple): std::tuple<T>          *)
+Funs == {"W", "ptr", "rot", "const1", "W2", "tuple1"}
 App(f, t) == CASE f = "W"      -> Tm("W", <<t>>)
+               [] f = "W2"     -> Tm("W2", <<t>>)
+               [] f = "tuple1" -> Tm("tuple", <<t>>)
                [] f = "ptr"    -> Tm("ptr", <<t>>)
                [] f = "rot"    -> IF IsAtom(t) THEN T(Atoms[(AtomIdx(t) % Len(Atoms)) + 1]) ELSE t
                [] f = "const1" -> T(Atoms[1])
